@@ -315,6 +315,32 @@ def r4(F, R):
                 clones = [c for x in reach for c in [ex.blocks[x]["term"]] if c["k"] == "call" and callee_is(c, r"Iterator::|Clone::clone$")]
                 ok_e = bool(rets) and not clones
     R.check(ok_e, "no-examples-unchanged", emp[0][0] if emp else ex, "examples.is_empty() => vec![Ok(scenario)]", "a scenario without Examples is not returned unchanged")
+    # ... and ONLY then: the raw scenario (unsubstituted placeholders) is handed back exactly when `scenario.examples` itself is empty,
+    # not when the expansion happens to be empty (an outline whose tables have no data rows expands to nothing) — on the path table
+    from . import deep as D
+    from .c03 import field_index
+    i_ex = field_index(F, "gherkin::Scenario", "examples")
+    def strip(t):
+        if isinstance(t, tuple) and t:
+            if t[0] in ("ref", "deref", "refto", "conv") and len(t) == 2:
+                return strip(t[1])
+            if t[0] == "L" and len(t) == 3 and t[1] == 0:
+                return ("arg", t[2])
+            return tuple(strip(x) for x in t)
+        return t
+    raw = lambda x: D.is_variant(x, "std::result::Result", "Ok") and strip(x[3][0]) == ("arg", 1)
+    rows = D.Deep(F, ex, inline=False, max_paths=200).run()
+    okr, n_raw = i_ex is not None and bool(rows), 0
+    for p in rows:
+        gives_raw = D.mentions(p.ret, raw) or any(e[0] == "write" and D.mentions(e[2], raw) for e in p.effects)
+        emptiness = [o for a, o in p.conds if a[0] == "call" and re.search(r"Vec(::<.*>)?::is_empty$", a[1]) and strip(a[2][0]) == ("field", ("arg", 1), i_ex) and isinstance(o, bool)]
+        if gives_raw:
+            n_raw += 1
+            okr = okr and emptiness == [True]
+        elif emptiness == [True]:
+            okr = False
+    R.check(okr and n_raw >= 1, "raw-scenario-only-without-examples", ex, "Ok(scenario) is returned iff scenario.examples.is_empty()",
+            "the un-expanded scenario can be returned although it has Examples (e.g. when its tables have no data rows): raw `<placeholders>` reach the runner")
     # expand_examples rebuilds both lists from their own taken value, in order
     ee = [b for b in F.crate_bodies() if (b.impl or {}).get("trait") == "feature::Ext" and (b.impl or {}).get("self_adt") == "gherkin::Feature" and b.name.endswith("::expand_examples")]
     if len(ee) != 1:
